@@ -129,6 +129,24 @@ def check_c16_in(ctx, sched):
                       f"message #{i} seen by the server differs from what was sent: "
                       f"got {g[:300]} want {(want[i] if i < len(want) else None)!s:.300}")
             return
+    exit_delivered = d.exit_sent and d.exit_op in d.sent
+    if len(got) >= n_expect and not exit_delivered and not d.cut_used and \
+            (d.pos < len(d.ops) or d.pending or d.marks):
+        # the server stopped reading although correctly framed input remained. It belongs to C16
+        # only if the read side itself failed (an exception out of the framing/decoding code);
+        # a loop killed by a handler or by the write side is C01's subject.
+        tb = ""
+        for l in S.logs:
+            if l["msg"].startswith("Unexpected error") and l["tb"]:
+                tb = l["tb"]
+        reading = [ln for ln in tb.splitlines() if "jsonrpc.py" in ln and
+                   any(f" in {fn}" in ln for fn in ("_receive", "read", "readline", "read_message",
+                                                    "_read_header_content_length"))]
+        if reading:
+            violation("C16", "in-lost", "client->server decoding: " + sim.site_from_traceback_text(tb),
+                      f"the server stopped reading a correctly framed stream at byte {d.delivered} "
+                      f"(message op {d.pos - 1 if d.pos else 0}): {tb[-400:]}", coarse="in-lost:read-side")
+        return
     if len(got) < n_expect:
         hdrs = sorted({d.ops[k].get("hdr", "cl-first") for k in d.sent[len(got):n_expect]})
         # the server stopped decoding although correctly framed messages remained
